@@ -2,6 +2,7 @@ import ColoVerif.Model.GridChecked
 import ColoVerif.Proofs.CheckedCores
 import ColoVerif.Proofs.GridCap
 import ColoVerif.Proofs.SpreadGrid
+import ColoVerif.Proofs.GridHier
 /-
 C07: the integer bookkeeping of `DensityGrid` evaluates without fault on the C07 domain and returns what
 the unbounded model `Model/Grid.lean` returns (checked twins: `Model/GridChecked.lean`).
@@ -456,5 +457,163 @@ theorem capacities_shape (limX limY : List Int) (regions : List Rect) :
   intro i hi
   simp only [] at hi
   simp [List.getD_eq_getElem?_getD, List.getElem?_map, List.getElem?_range hi]
+
+/-! ### the constructed grid: capacities are non-negative and the total is bounded -/
+
+theorem capacities_entry (limX limY : List Int) (regions : List Rect) (i j : Nat) (hi : i < limX.length - 1)
+    (hj : j < limY.length - 1) :
+    (DGrid.mk limX limY (capacities limX limY regions)).binCapacity i j = binCapOf limX limY regions i j := by
+  unfold DGrid.binCapacity capacities
+  simp [List.getD_eq_getElem?_getD, List.getElem?_map, List.getElem?_range hi, List.getElem?_range hj]
+
+theorem total_zero : ∀ t : List (List Int), (∀ row ∈ t, ∀ v ∈ row, v = 0) → (t.map List.sum).sum = 0
+  | [], _ => rfl
+  | row :: rest, h => by
+    have aux : ∀ r : List Int, (∀ v ∈ r, v = 0) → r.sum = 0 := by
+      intro r; induction r with
+      | nil => intro _; rfl
+      | cons a as ih => intro hr; simp [hr a (by simp), ih (fun v hv => hr v (by simp [hv]))]
+    have h1 : row.sum = 0 := aux row (h row (by simp))
+    have h2 := total_zero rest (fun r hr => h r (by simp [hr]))
+    simp [h1, h2]
+
+theorem area_bounds (r : Rect) (h : RectOk r) : 0 ≤ r.area ∧ r.area ≤ 70368744177664 := by
+  obtain ⟨⟨a1, a2, a3, a4, a5, a6, a7, a8⟩, vx, vy⟩ := h
+  unfold Rect.area Rect.width Rect.height
+  have := mul_bound_nonneg (a := r.maxX - r.minX) (c := r.maxY - r.minY) (A := 8388608) (C := 8388608)
+    (by omega) (by omega) (by omega) (by omega)
+  omega
+
+/-- the grid `DensityGrid(binSize, regions)` builds on the domain of `ofRegionsC_ok`: every capacity is
+non-negative and the total is at most `2^16 · 2^46 = 2^62` -/
+theorem ofRegions_capacity_bounds (binSize : Int) (regions : List Rect) (hb : 1 ≤ binSize)
+    (hr : ∀ r ∈ regions, RectOk r) (hn : regions.length ≤ 65536) :
+    (∀ i j, i < (DGrid.ofRegions binSize regions).nbX → j < (DGrid.ofRegions binSize regions).nbY →
+      0 ≤ (DGrid.ofRegions binSize regions).binCapacity i j) ∧
+    0 ≤ (DGrid.ofRegions binSize regions).totalCapacity ∧
+    (DGrid.ofRegions binSize regions).totalCapacity ≤ 4611686018427387904 := by
+  obtain ⟨⟨a1, a2, a3, a4, a5, a6, a7, a8⟩, vx, vy⟩ := placementArea_ok regions hr
+  obtain ⟨_, nx1, nx2⟩ := nbBinsForC_ok "width" _ _ binSize a1 a4 vx hb
+  obtain ⟨_, ny1, ny2⟩ := nbBinsForC_ok "height" _ _ binSize a5 a8 vy hb
+  obtain ⟨lx1, lx2, lx3⟩ := subdiv_limits _ _ _ a1 a4 vx nx1 nx2
+  obtain ⟨ly1, ly2, ly3⟩ := subdiv_limits _ _ _ a5 a8 vy ny1 ny2
+  have hnn : ∀ i j, i < (DGrid.ofRegions binSize regions).nbX → j < (DGrid.ofRegions binSize regions).nbY →
+      0 ≤ (DGrid.ofRegions binSize regions).binCapacity i j := by
+    intro i j hi hj
+    have e := capacities_entry (DGrid.ofRegions binSize regions).limX (DGrid.ofRegions binSize regions).limY regions i j hi hj
+    have hb' := (binCapOfC_ok true (DGrid.ofRegions binSize regions).limX (DGrid.ofRegions binSize regions).limY regions i j
+      (by unfold DGrid.nbX at hi; omega) (by unfold DGrid.nbY at hj; omega) lx1 ly1 lx2 ly2 lx3 ly3 hr hn).2
+    have : (DGrid.ofRegions binSize regions).binCapacity i j =
+        binCapOf (DGrid.ofRegions binSize regions).limX (DGrid.ofRegions binSize regions).limY regions i j := e
+    rw [this]; exact hb'
+  refine ⟨hnn, ?_, ?_⟩
+  · have hsh : CapShape (DGrid.ofRegions binSize regions) := capacities_shape _ _ regions
+    rw [← total_as_ranges _ hsh]
+    apply sum_nonneg_int
+    intro v hv
+    obtain ⟨i, hi, rfl⟩ := List.mem_map.mp hv
+    apply sum_nonneg_int
+    intro w hw
+    obtain ⟨j, hj, rfl⟩ := List.mem_map.mp hw
+    exact hnn i j (List.mem_range.mp hi) (List.mem_range.mp hj)
+  · by_cases hne : regions = []
+    · subst hne
+      have : (DGrid.ofRegions binSize []).totalCapacity = 0 := by
+        unfold DGrid.totalCapacity
+        apply total_zero
+        intro row hrow v hv
+        unfold DGrid.ofRegions capacities at hrow
+        simp only [List.mem_map] at hrow
+        obtain ⟨i, _, rfl⟩ := hrow
+        simp only [List.mem_map] at hv
+        obtain ⟨j, _, rfl⟩ := hv
+        simp [binCapOf]
+      omega
+    · have ht := (ofRegions_ok binSize regions hne (fun r h => ⟨(hr r h).2.1, (hr r h).2.2⟩)).2.2.2.2.2.2.2
+      have hs := sum_le_mul 70368744177664 (regions.map Rect.area) (by
+        intro v hv; obtain ⟨r, h, rfl⟩ := List.mem_map.mp hv; exact (area_bounds r (hr r h)).2)
+      rw [List.length_map] at hs
+      have : (DGrid.ofRegions binSize regions).totalCapacity = (regions.map Rect.area).sum := ht
+      omega
+
+/-- `totalCapacity()` on the constructed grid, no extra hypothesis -/
+theorem ofRegions_totalCapacityC (binSize : Int) (regions : List Rect) (hb : 1 ≤ binSize)
+    (hr : ∀ r ∈ regions, RectOk r) (hn : regions.length ≤ 65536) :
+    (DGrid.ofRegions binSize regions).totalCapacityC = .ok (DGrid.ofRegions binSize regions).totalCapacity := by
+  obtain ⟨h1, _, h3⟩ := ofRegions_capacity_bounds binSize regions hb hr hn
+  exact totalCapacityC_ok _ (capacities_shape _ _ regions) h1 (by omega)
+
+/-! ### `binCapacity(BinGroup)` -/
+
+theorem binCapacity_nonneg_all (g : DGrid) (hs : CapShape g)
+    (hnn : ∀ i j, i < g.nbX → j < g.nbY → 0 ≤ g.binCapacity i j) (i j : Nat) : 0 ≤ g.binCapacity i j := by
+  by_cases hi : i < g.nbX
+  · by_cases hj : j < g.nbY
+    · exact hnn i j hi hj
+    · unfold DGrid.binCapacity
+      have : (g.cap.getD i []).getD j 0 = 0 := by
+        rw [List.getD_eq_getElem?_getD, List.getElem?_eq_none (by rw [hs.2 i hi]; omega)]; rfl
+      omega
+  · unfold DGrid.binCapacity
+    have : g.cap.getD i [] = [] := by
+      rw [List.getD_eq_getElem?_getD, List.getElem?_eq_none (by rw [hs.1]; omega)]; rfl
+    rw [this]; simp
+
+theorem groupCapacity_nonneg (g : DGrid) (h : ∀ i j, 0 ≤ g.binCapacity i j) (x0 x1 y0 y1 : Nat) :
+    0 ≤ g.groupCapacity x0 x1 y0 y1 := by
+  unfold DGrid.groupCapacity
+  apply sum_nonneg_int
+  intro v hv
+  obtain ⟨i, _, rfl⟩ := List.mem_map.mp hv
+  apply sum_nonneg_int
+  intro w hw
+  obtain ⟨j, _, rfl⟩ := List.mem_map.mp hw
+  exact h _ _
+
+theorem groupCapacity_full (g : DGrid) (hs : CapShape g) : g.groupCapacity 0 g.nbX 0 g.nbY = g.totalCapacity := by
+  rw [← total_as_ranges g hs]
+  unfold DGrid.groupCapacity DGrid.binCapacity
+  simp
+
+/-- a group of bins holds at most the total capacity -/
+theorem groupCapacity_le_total (g : DGrid) (hs : CapShape g) (h : ∀ i j, 0 ≤ g.binCapacity i j)
+    (x0 x1 y0 y1 : Nat) (hx : x0 ≤ x1) (hx1 : x1 ≤ g.nbX) (hy : y0 ≤ y1) (hy1 : y1 ≤ g.nbY) :
+    g.groupCapacity x0 x1 y0 y1 ≤ g.totalCapacity := by
+  rw [← groupCapacity_full g hs]
+  have s1 := groupCapacity_split_x g 0 x0 g.nbX 0 g.nbY (by omega) (by omega)
+  have s2 := groupCapacity_split_x g x0 x1 g.nbX 0 g.nbY hx hx1
+  have s3 := groupCapacity_split_y g x0 x1 0 y0 g.nbY (by omega) (by omega)
+  have s4 := groupCapacity_split_y g x0 x1 y0 y1 g.nbY hy hy1
+  have n1 := groupCapacity_nonneg g h 0 x0 0 g.nbY
+  have n2 := groupCapacity_nonneg g h x1 g.nbX 0 g.nbY
+  have n3 := groupCapacity_nonneg g h x0 x1 0 y0
+  have n4 := groupCapacity_nonneg g h x0 x1 y1 g.nbY
+  omega
+
+/-- **`binCapacity(BinGroup)`**: a group inside the grid is summed without an out-of-range index or an overflow -/
+theorem groupCapacityC_ok (g : DGrid) (hs : CapShape g)
+    (hnn : ∀ i j, i < g.nbX → j < g.nbY → 0 ≤ g.binCapacity i j) (ht : g.totalCapacity ≤ 9223372036854775807)
+    (x0 x1 y0 y1 : Nat) (hx : x0 ≤ x1) (hx1 : x1 ≤ g.nbX) (hy : y0 ≤ y1) (hy1 : y1 ≤ g.nbY) :
+    g.groupCapacityC x0 x1 y0 y1 = .ok (g.groupCapacity x0 x1 y0 y1) := by
+  have hall := binCapacity_nonneg_all g hs hnn
+  have hle := groupCapacity_le_total g hs hall x0 x1 y0 y1 hx hx1 hy hy1
+  have hsum : ((List.range' x0 (x1 - x0)).map fun i => ((List.range' y0 (y1 - y0)).map fun j =>
+      (g.cap.getD i []).getD j 0).sum).sum = g.groupCapacity x0 x1 y0 y1 := by
+    unfold DGrid.groupCapacity DGrid.binCapacity
+    simp only [List.range'_eq_map_range, List.map_map, Function.comp_def]
+  unfold DGrid.groupCapacityC
+  have key := accGridC_ok "binCapacity(BinGroup): ret += binCapacity_[i][j]" g.cap (List.range' y0 (y1 - y0))
+    (List.range' x0 (x1 - x0)) 0
+    (by
+      intro i hi
+      have hi' := List.mem_range'_1.mp hi
+      have hin : i < g.nbX := by omega
+      refine ⟨by rw [hs.1]; exact hin, ?_⟩
+      intro j hj
+      have hj' := List.mem_range'_1.mp hj
+      exact ⟨by rw [hs.2 i hin]; omega, hall i j⟩)
+    (by omega) (by rw [hsum]; omega)
+  rw [key, hsum]
+  simp
 
 end ColoVerif.Grid
